@@ -382,11 +382,12 @@ def c13(cx):
                     what="every yield point (collector, rotation decided / before lock, sync between sections, server-authorization between sections, "
                          "authorize before peers, migrate validated, stats after unlock) x every interfering operation (ban, authorize, report, rotate, "
                          "report for a just banned device), all actions strict")
-    r = cx.drv_ok("conc", ["--only", "random"], race=True, crash_violation=True, timeout=200)
-    if not r.get("crashed"):
-        cx.validate("Trace_Server", "Trace_C13.cfg", r["trace"],
-                    what="12 goroutines: registrations, server authorizations, migrations, equipment incl. bans, reports over UDP and direct, reads, "
-                         "clock jumps forcing rotations; built with -race")
+    for k in range(1 if q else 4):      # thorough: four independently seeded workloads (each driver process lives < 110 s)
+        r = cx.drv_ok("conc", ["--only", "random"], race=True, crash_violation=True, timeout=200, seed=cx.seed + 1000 * k)
+        if not r.get("crashed"):
+            cx.validate("Trace_Server", "Trace_C13.cfg", r["trace"],
+                        what="12 goroutines: registrations, server authorizations, migrations, equipment incl. bans, reports over UDP and direct, reads, "
+                             "clock jumps forcing rotations; built with -race")
 
 
 def lockcfg(cx, pkgs, violate_pkgs=("server", "glow")):
